@@ -185,6 +185,7 @@ type pipeCase struct {
 	gateOnce      sync.Once
 
 	trig, trigDir, trigK, closeVia int
+	endCloseDir                    int // the writer of this direction calls Close right after its last write
 	gatedDir                       int // -1 none
 
 	entries []wEntry
@@ -311,6 +312,12 @@ func (c *pipeCase) writer(d int, rnd *rand.Rand) {
 			c.viol("write-unexpected-error", fmt.Sprintf("dir %d: Write: %v", d, err), nil)
 			return
 		}
+	}
+	if c.endCloseDir == d {
+		// every history ends with "last write, then Close immediately" by one of the writers (the shape of
+		// fasthttp.NewStreamReader: Flush, then Close): the tail must not be lost behind EOF
+		c.note("end_write_then_close", 1)
+		c.doClose()
 	}
 }
 
@@ -467,6 +474,7 @@ func runPipeCase(r *mon.Run, i int) {
 	c.trigDir = rnd.Intn(2)
 	c.trigK = 1 + rnd.Intn(12)
 	c.closeVia = rnd.Intn(3)
+	c.endCloseDir = rnd.Intn(2)
 	if rnd.Intn(5) == 0 {
 		// slow-reader shape: everything is written and the pipe closed before the first Read
 		c.gatedDir = rnd.Intn(2)
@@ -580,6 +588,7 @@ func runPipeCase(r *mon.Run, i int) {
 	r.Event("pipe_read_timeouts", c.feat["read_timeout"])
 	r.Event("pipe_write_timeouts", c.feat["write_timeout"])
 	r.Event("pipe_gated_readers", c.feat["gated_reader"])
+	r.Event("histories_ending_with_write_then_close", c.feat["end_write_then_close"])
 	for _, ent := range c.entries {
 		r.Event("writes_via_"+ent.name, c.feat["entry:"+ent.name])
 	}
@@ -595,6 +604,104 @@ func runPipeCase(r *mon.Run, i int) {
 			"gated_reader_dir": c.gatedDir, "bytes_read": []int64{rpos[0], rpos[1]}, "bytes_written": []int64{c.written[0].Load(), c.written[1].Load()},
 			"written_before_close_invoked": []int64{c.wpre[0].Load(), c.wpre[1].Load()}, "features": c.feat})
 	}
+}
+
+// ---------------------------------------------------------------- tiny histories
+
+const tinyBlock = 500
+
+// runTinyBlock runs tinyBlock very short one-directional histories: a writer goroutine does 1-3 small writes and
+// calls Close immediately after the last one (the shape of fasthttp.NewStreamReader's goroutine: Flush, Close),
+// while the reader drains with small buffers. Every write returned before Close was invoked, so every byte
+// must arrive before io.EOF. Cheap enough to be repeated 10^5 times: the losing interleaving is a few
+// instructions wide.
+func runTinyBlock(r *mon.Run, bi int) {
+	rnd := r.Rand("tiny", bi)
+	wbuf := make([]byte, 256)
+	rbuf := make([]byte, 64)
+	for k := 0; k < tinyBlock; k++ {
+		pc := fasthttputil.NewPipeConns()
+		var wc, rc net.Conn = pc.Conn1(), pc.Conn2()
+		dir := rnd.Intn(2)
+		if dir == 1 {
+			wc, rc = rc, wc
+		}
+		nw := 1 + rnd.Intn(3)
+		sizes := [3]int{1 + rnd.Intn(64), 1 + rnd.Intn(64), 1 + rnd.Intn(64)}
+		yieldW, yieldR, via, useWS := rnd.Intn(8), rnd.Intn(8), rnd.Intn(3), rnd.Intn(2) == 0
+		total := 0
+		for j := 0; j < nw; j++ {
+			total += sizes[j]
+		}
+		for j := 0; j < total; j++ {
+			wbuf[j] = seq(dir, int64(j))
+		}
+		var werr error
+		done := make(chan struct{})
+		go func() {
+			defer close(done)
+			pos := 0
+			for j := 0; j < nw; j++ {
+				if yieldW == j {
+					runtime.Gosched()
+				}
+				var err error
+				if useWS {
+					_, err = io.WriteString(wc, string(wbuf[pos:pos+sizes[j]]))
+				} else {
+					_, err = wc.Write(wbuf[pos : pos+sizes[j]])
+				}
+				if err != nil {
+					werr = err
+					break
+				}
+				pos += sizes[j]
+			}
+			switch via {
+			case 0:
+				wc.Close()
+			case 1:
+				pc.Close()
+			default:
+				wc.Close()
+				pc.Close()
+			}
+		}()
+		got, bad := 0, false
+		rsz := 1 + rnd.Intn(len(rbuf))
+		for n := 0; ; n++ {
+			if yieldR == n {
+				runtime.Gosched()
+			}
+			m, err := rc.Read(rbuf[:rsz])
+			for j := 0; j < m; j++ {
+				if rbuf[j] != seq(dir, int64(got+j)) {
+					bad = true
+				}
+			}
+			got += m
+			if err != nil {
+				if err != io.EOF {
+					r.Violation(bi, "read-unexpected-error", fmt.Sprintf("tiny history: Read: %v", err), map[string]any{"kind": "tiny", "history": k})
+				}
+				break
+			}
+		}
+		<-done
+		switch {
+		case werr != nil:
+			r.Violation(bi, "write-unexpected-error", fmt.Sprintf("tiny history: Write on an open pipe: %v", werr), map[string]any{"kind": "tiny", "history": k})
+		case bad:
+			r.Violation(bi, "bytes-corrupt", "tiny history: received bytes differ from the written ones", map[string]any{"kind": "tiny", "history": k})
+		case got < total:
+			r.Violation(bi, "eof-before-written-bytes-drained", fmt.Sprintf("tiny history (%d writes, then Close immediately): Read returned io.EOF after %d of the %d bytes written before Close was invoked", nw, got, total),
+				map[string]any{"kind": "tiny", "history": k, "writes": nw, "sizes": sizes[:nw], "read_size": rsz, "got": got, "written": total})
+		case got > total:
+			r.Violation(bi, "read-more-than-written", fmt.Sprintf("tiny history: %d bytes read, %d written", got, total), map[string]any{"kind": "tiny", "history": k})
+		}
+	}
+	r.Event("tiny_histories", tinyBlock)
+	r.Cases(tinyBlock, fmt.Sprintf("tiny/block%d", bi%4), true)
 }
 
 // ---------------------------------------------------------------- listener
@@ -828,7 +935,8 @@ func runListenerCase(r *mon.Run, i int) {
 func TestC33(t *testing.T) {
 	r := mon.Start(t, "C33")
 	defer r.Finish()
-	r.Rule("pipe case = one PipeConns, per direction one writer goroutine (1-30 writes of 0-5000 bytes through a PRNG-chosen write entry point of the conn - Write plus whatever io.StringWriter / io.ReaderFrom / io.ByteWriter the value implements, also via io.WriteString and bufio.Writer.WriteString -, content = f(direction, stream position), PRNG write deadlines) and one reader goroutine (reads of 0-5000 bytes until EOF, PRNG read deadlines), Close via Conn1/Conn2/PipeConns at a PRNG point (after the k-th write, after the k-th read, from a third goroutine, or after the writers finished; 1 in 5 cases the reader only starts after Close returned), PRNG Gosched/spin/sleep between operations; " +
+	r.Rule("pipe case = one PipeConns, per direction one writer goroutine (1-30 writes of 0-5000 bytes through a PRNG-chosen write entry point of the conn - Write plus whatever io.StringWriter / io.ReaderFrom / io.ByteWriter the value implements, also via io.WriteString and bufio.Writer.WriteString -, content = f(direction, stream position), PRNG write deadlines) and one reader goroutine (reads of 0-5000 bytes until EOF, PRNG read deadlines), one PRNG-chosen writer calls Close immediately after its last write (if the pipe is still open then), otherwise Close via Conn1/Conn2/PipeConns at a PRNG point (after the k-th write, after the k-th read, from a third goroutine, or after the writers finished; 1 in 5 cases the reader only starts after Close returned), PRNG Gosched/spin/sleep between operations; " +
+		"tiny history (blocks of 500) = 1-3 writes of 1-64 bytes, Close immediately after the last one, reader with a 1-64 byte buffer; " +
 		"listener case = 1-8 dialers x 1-8 acceptors x one closer on one InmemoryListener, each Dial sends a unique 8-byte token and waits for the 16-byte reply of the accepting side; " +
 		"distinct = feature vectors (trigger, closing end, gated reader, deadlines set, timeouts hit, zero writes, partial reads, byte volume | dialers, acceptors, pairs, orphan accepts, operations after close); non-trivial = bytes flowed and Close was not the trivial end-of-case close (pipe) / at least one Dial was paired (listener)")
 	r.Assume("documented contract only: one writer goroutine and one reader goroutine per direction; deadlines are set by the goroutine that uses them; Close may come from any goroutine")
@@ -850,9 +958,10 @@ func TestC33(t *testing.T) {
 		}
 		pc.Close()
 	}
-	nPipe := r.N(10_000, 240_000)
-	nLn := r.N(2_500, 60_000)
-	total := nPipe + nLn
+	nPipe := r.N(6_000, 120_000)
+	nLn := r.N(1_500, 30_000)
+	nTiny := r.N(120, 2_000) // blocks of tinyBlock histories
+	total := nPipe + nLn + nTiny
 	var hung, pipeNs, lnNs atomic.Int64
 	mon.Parallel(total, 0, func(i int) {
 		if !r.Want(i) || hung.Load() > 3 {
@@ -866,7 +975,9 @@ func TestC33(t *testing.T) {
 			}()
 			// listener cases are interleaved with pipe cases so that both kinds perturb each other
 			t0 := time.Now() // evidence only
-			if i%5 == 4 && i/5 < nLn {
+			if i >= nPipe+nLn {
+				runTinyBlock(r, i)
+			} else if i%5 == 4 && i/5 < nLn {
 				runListenerCase(r, i)
 				lnNs.Add(int64(time.Since(t0)))
 			} else {
@@ -882,6 +993,7 @@ func TestC33(t *testing.T) {
 	})
 	r.Set("summed_case_wall_s", map[string]float64{"pipe": float64(pipeNs.Load()) / 1e9, "listener": float64(lnNs.Load()) / 1e9})
 	if !r.Replaying() {
+		r.Require("tiny_histories", nTiny*tinyBlock)
 		r.Require("pipe_cases", nPipe*9/10)
 		r.Require("ln_cases", nLn*9/10)
 		r.Require("pipe_bytes_verified", nPipe*1000)
@@ -889,6 +1001,7 @@ func TestC33(t *testing.T) {
 		r.Require("ln_pairs_verified", nLn)
 		r.Require("write_after_close_judged", nPipe*2)
 		r.Require("reads_after_eof_still_eof", nPipe*3)
+		r.Require("histories_ending_with_write_then_close", nPipe*4/10)
 		if _, ok := fasthttputil.NewPipeConns().Conn1().(io.StringWriter); ok {
 			r.Require("writes_via_WriteString", nPipe)
 		}
